@@ -58,12 +58,19 @@ def fromObjectH : Handler := fun j => do
     else throw "attribute item")
   pure (Json.arr ((fromObject attrs).map (fun (k, v) => Json.arr #[Json.str k, jsonOfVal v])).toArray)
 
+def jsonOfBind : Bind → Json
+  | .unix p => Json.mkObj [("kind", "unix"), ("path", jsonOfChars p)]
+  | .fd n => Json.mkObj [("kind", "fd"), ("fd", optJson toJson n)]
+  | .inet v6 h p => Json.mkObj [("kind", "inet"), ("v6", v6), ("host", jsonOfChars h), ("port", toJson p)]
+
 def bindH : Handler := fun j => do
   let s ← getChars j "bind"
-  match parseBind s with
-  | .unix p => pure (Json.mkObj [("kind", "unix"), ("path", jsonOfChars p)])
-  | .fd n => pure (Json.mkObj [("kind", "fd"), ("fd", optJson toJson n)])
-  | .inet v6 h p => pure (Json.mkObj [("kind", "inet"), ("v6", v6), ("host", jsonOfChars h), ("port", toJson p)])
+  pure (jsonOfBind (parseBind s))
+
+/-- a whole list through the loop of `_create_sockets` -/
+def bindsH : Handler := fun j => do
+  let ss ← (← getArr j "binds").toList.mapM (fun b => do pure (← b.getStr?).toList)
+  pure (Json.arr ((createSockets ss).map jsonOfBind).toArray)
 
 def dateH : Handler := fun j => do
   let t ← getNat j "t"
@@ -75,7 +82,7 @@ def headersH : Handler := fun j => do
   pure (jsonOfHeaders (responseHeaders c (← getBytes j "date") (← getBytes j "protocol")))
 
 def handlers : List (String × Handler) :=
-  [("c19.cli", cli), ("c19.args", argsH), ("c19.wires", wiresH), ("c19.from_mapping", fromMappingH), ("c19.from_object", fromObjectH), ("c19.bind", bindH),
+  [("c19.cli", cli), ("c19.args", argsH), ("c19.wires", wiresH), ("c19.from_mapping", fromMappingH), ("c19.from_object", fromObjectH), ("c19.bind", bindH), ("c19.binds", bindsH),
    ("c19.date", dateH), ("c19.headers", headersH)]
 
 end Driver.C19
